@@ -28,6 +28,11 @@ theorem lsum_map_zero {α : Type} (l : List α) : lsum (l.map fun _ => (0 : R)) 
     show (0 : R) + lsum (l.map fun _ => (0 : R)) = 0
     rw [ih, add_zero]
 
+theorem lsum_replicate_zero (n : Nat) : lsum (List.replicate n (0 : R)) = 0 := by
+  induction n with
+  | zero => rfl
+  | succ n ih => simp [List.replicate_succ, ih]
+
 theorem lsum_map_add {α : Type} (l : List α) (f g : α → R) :
     lsum (l.map fun a => f a + g a) = lsum (l.map f) + lsum (l.map g) := by
   induction l with
